@@ -34,6 +34,8 @@ FILES = {
 SKIP_FUNCS = {"to_math_ml_fragment", "to_math_ml", "make_ml_tag", "get_ml_name", "terminal_text", "with_color", "color", "add_class", "clear_classes",
               "compare_expression_string_values", "raise_with_history", "compare_expression_values", "compare_equation_values", "print_error", "pad_array",
               "is_debug_mode", "set_changed", "all_changed", "raw"}
+SWAP = {"left": "right", "right": "left", "set_left": "set_right", "set_right": "set_left", "leftExponent": "rightExponent", "rightExponent": "leftExponent", "leftVariable": "rightVariable", "rightVariable": "leftVariable"}
+OPS = os.environ.get("MUTATE_OPS", "basic")  # basic | swap | all
 CMP = {ast.Eq: ast.NotEq, ast.NotEq: ast.Eq, ast.Lt: ast.LtE, ast.LtE: ast.Lt, ast.Gt: ast.GtE, ast.GtE: ast.Gt, ast.Is: ast.IsNot, ast.IsNot: ast.Is, ast.In: ast.NotIn, ast.NotIn: ast.In}
 
 
@@ -67,6 +69,10 @@ class Collector(ast.NodeVisitor):
                 self.points.append((node._mid, "const", 0, fn, node.lineno))
         elif isinstance(node, ast.BinOp) and isinstance(node.op, (ast.Add, ast.Sub)):
             self.points.append((node._mid, "arith", 0, fn, node.lineno))
+        elif isinstance(node, ast.Attribute) and node.attr in SWAP and self.stack and OPS in ("all", "swap"):
+            self.points.append((node._mid, "swap", 0, fn, node.lineno))
+        elif isinstance(node, ast.Name) and node.id in ("LEFT", "RIGHT") and self.stack and OPS in ("all", "swap"):
+            self.points.append((node._mid, "swapname", 0, fn, node.lineno))
         elif isinstance(node, ast.Expr) and isinstance(node.value, ast.Call) and self.stack:
             f = node.value.func
             if not (isinstance(f, ast.Attribute) and f.attr in ("set_changed", "all_changed", "seterr")):
@@ -109,6 +115,10 @@ class Applier(ast.NodeTransformer):
                 node.op = ast.Sub() if isinstance(node.op, ast.Add) else ast.Add()
             elif k == "delstmt":
                 return ast.Pass()
+            elif k == "swap":
+                node.attr = SWAP[node.attr]
+            elif k == "swapname":
+                node.id = "RIGHT" if node.id == "LEFT" else "LEFT"
         return super().generic_visit(node)
 
 
@@ -117,7 +127,10 @@ def points_for(rel):
     tree = ast.parse(src)
     c = Collector()
     c.visit(tree)
-    return src, c.points
+    pts = c.points
+    if OPS == "swap":
+        pts = [p for p in pts if p[1] in ("swap", "swapname")]
+    return src, pts
 
 
 def mutant_source(rel, target, kind, sub):
@@ -190,7 +203,7 @@ def main():
         jobs = jobs[:limit]
     out = os.path.join(ROOT, "out", "mutation")
     os.makedirs(out, exist_ok=True)
-    path = os.path.join(out, "results.jsonl")
+    path = os.path.join(out, "results.jsonl" if OPS == "basic" else f"results-{OPS}.jsonl")
     done = set()
     if os.path.exists(path):
         done = {json.loads(l)["mutant"] for l in open(path) if l.strip()}
